@@ -783,6 +783,35 @@ def conformance(R, S, specs, results, limit=4000):
     R.coverage["semantics_conformance"] = {"runs": n, "outside": len(bad), "skipped_fuel": fuel, "skipped_big_programs": skipped_big, "model_queries": len(queries)}
     return bad
 
+def explorer_agreement(R, S, tier):
+    """the Python explorer used for the failing-input search and the Lean enumeration (T1F.stepList, proved equivalent to
+    T1F.Step) must agree on "can get stuck" / "can leak" for the model's emissions"""
+    from . import explore as XP
+    qs, meta = [], []
+    for k, l in S["ok"]:
+        E = PC.parse_edump(S["model"][k])
+        if len(E["threads"]) < 2 or len(E["threads"]) > 5 or sum(len(t) for t in E["threads"]) > 10:
+            continue
+        fall = [int(c["head"][1:]) for th in E["threads"] for c in th if c["fallible"] and c["head"].startswith("P")]
+        for fails in [[]] + [[f] for f in fall[:2]]:
+            for cancel in ((0, 1) if 0 in E["args"] else (0,)):
+                qs.append("X %s | fails %s | cancel %d" % (l, " ".join(map(str, fails)), cancel))
+                meta.append((k, E, fails, cancel))
+        if len(qs) > (120 if tier == "quick" else 1200):
+            break
+    out = C.lean_driver(qs)
+    bad = []
+    for q, o, (k, E, fails, cancel) in zip(qs, out, meta):
+        if " FUEL" in o:
+            continue
+        toks = o.split()[1:]
+        lean = ("stuck" in toks, any(t.endswith("+leak") for t in toks))
+        py = XP.verdict(E, ["P%d" % f for f in fails], bool(cancel))
+        if lean != py:
+            bad.append((q[:200], "lean(stuck,leak)=%s python=%s" % (lean, py)))
+    R.oblige("the explicit-state search used for failing inputs agrees with the Lean enumeration of T1F on stuck / leak verdicts (%d queries)" % len(qs),
+             not bad, "%d disagree; first: %s" % (len(bad), bad[:1]))
+
 def run_failure_property(prop, tier, seed, note):
     R = C.Result(prop, tier, seed)
     repo_dir = C.ensure_repo_build()
@@ -795,6 +824,8 @@ def run_failure_property(prop, tier, seed, note):
     conf_bad = []
     if S.get("runtime", (None,))[0] is not None:
         conf_bad = conformance(R, S, S["runtime"][0], S["runtime"][1])
+    if prop == "C08":
+        explorer_agreement(R, S, tier)
     if diffs and not R.violations and S.get("runtime", (None,))[0] is not None:
         # the emitted code is not what the model says: search the differing declarations for a run that breaks the property
         ks = [i for i, l, a, b in sorted(diffs, key=lambda d: len(d[1]))[:40] if b.startswith("OK") and "Init%d" % i in S["extract"]]
